@@ -23,6 +23,7 @@ func TestSweep(t *testing.T) {
 					for b := a; b <= K; b++ {
 						for ch := 0; ch < C; ch++ {
 							Oracle.One(t, env, rec, "sweep", &Case{T: tn, C: C, Kr: K, A: a, B: b, Ch: ch, Fix: (a + ch) % 3})
+							Oracle.One(t, env, rec, "sweep", &Case{T: tn, C: C, Kr: K, A: a, B: b, Ch: ch, Fix: (a + ch) % 3, Pre: 1 + (a+b+ch)%2})
 							if C <= 4 && K <= 4 {
 								for _, grow := range []int{1, K - b + 1} { // in place if there is spare capacity, and beyond it
 									Oracle.One(t, env, rec, "sweep", &Case{T: tn, C: C, Kr: K, A: a, B: b, Ch: ch, Fix: (b + ch) % 3, Grow: grow})
